@@ -47,7 +47,11 @@ func resolveStruct(rv reflect.Value, fieldName string) (any, bool) {
 
 	// Try field name first
 	if f, ok := rt.FieldByName(fieldName); ok && f.IsExported() {
-		fv := rv.FieldByIndex(f.Index)
+		// a field promoted from an embedded pointer that is nil does not exist on this value
+		fv, err := rv.FieldByIndexErr(f.Index)
+		if err != nil {
+			return nil, false
+		}
 		return fv.Interface(), true
 	}
 
